@@ -56,11 +56,14 @@ static double twin_u1(std::mt19937_64& g, long n) {
 // Scale of the particle contents (the property constrains only *copies*: any magnitude must survive bit for bit).
 // Power-of-two factors keep the entries exact and distinct; classes: 0 plain, 1 covariance 2^-70 (~1e-21 .. 1e-16),
 // 2 everything 2^-70, 3 everything 2^33, 4 covariance exactly zero, 5 mean 2^-70 and covariance 2^40, 6 state 2^-70,
-// 7 mean exactly zero.  The state is never exactly zero, so a column can always be identified by its first entry.
+// 7 mean exactly zero, 8 near-duplicate columns: consecutive particles differ by 2^-36 (1.5e-11) in entries of size 1e3, i.e.
+// they are isApprox-equal (1e-12 relative) but not equal - a copy taken from a neighbour is not a copy.
+// The state is never exactly zero, so a column can always be identified by its first entry.
 struct Scales { double s, m, c; int cls; };
 static Scales scales_of(unsigned long salt) {
     const double t = std::ldexp(1.0, -70), b = std::ldexp(1.0, 33);
-    switch (salt % 8) {
+    switch (salt % 9) {
+        case 8: return {1.0, 1.0, 1.0, 8};      // near-duplicate columns: see fill_set
         case 1: return {1.0, 1.0, t, 1};
         case 2: return {t, t, t, 2};
         case 3: return {b, b, b, 3};
@@ -75,6 +78,18 @@ static const Scales kPlain = {1.0, 1.0, 1.0, 0};
 
 // distinct, exactly representable column contents: particle i, row r (column c of its covariance)
 static void fill_set(ParticleSet& p, double base, const Scales& sc = kPlain) {
+    if (sc.cls == 8) {
+        const double e = std::ldexp(1.0, -36);
+        for (long i = 0; i < (long)p.state().cols(); ++i) {
+            for (long r = 0; r < p.state().rows(); ++r) p.state()(r, i) = (base + 1000.0 + r) + (i + 1) * e;
+            for (long r = 0; r < p.mean().rows(); ++r) p.mean()(r, i) = (base + 1000.0 + r + 0.25) + (i + 1) * e;
+        }
+        long dc8 = p.dim_covariance;
+        for (long i = 0; i < (long)p.components; ++i)
+            for (long c = 0; c < dc8; ++c)
+                for (long r = 0; r < dc8; ++r) p.covariance()(r, dc8 * i + c) = (base + 1000.0 + 10.0 * r + c + 0.5) + (i + 1) * e;
+        return;
+    }
     for (long i = 0; i < (long)p.state().cols(); ++i) {
         // (the term (i+1) 2^-30 gives every entry a long mantissa: a detour through single precision would not be exact)
         const double lowbits = (i + 1) * std::ldexp(1.0, -30);
@@ -197,7 +212,7 @@ static std::string rwp_call(Resampling& r, std::mt19937_64& twin, double ratio, 
         // of state, mean and covariance must match bit for bit
         long id = 0;
         double v = res.state().rows() ? res.state()(0, j) : 0.0;
-        double qc = v / sc.s / 1000.0, qf = (v - init_base(call0)) / 1000.0;
+        double qc = (sc.cls == 8) ? (v - 1000.0) * std::ldexp(1.0, 36) : v / sc.s / 1000.0, qf = (v - init_base(call0)) / 1000.0;
         long ci = (std::isfinite(qc) && std::fabs(qc) < 1e15) ? std::llround(qc) - 1 : -1;
         long fi = (std::isfinite(qf) && std::fabs(qf) < 1e15) ? std::llround(qf) - 1 : -1;
         if (ci >= 0 && ci < n && col_same(res, j, cor0, ci)) id = ci + 1;
